@@ -2182,6 +2182,9 @@ def iteration_sequence_check(ctx, pool):
 
 
 MATE_THEMES = [
+    # pawnless, at most one minor piece each: mates exist although `insufficient material` rules of thumb call them drawn
+    "kb6/8/1K6/3B4/8/8/8/8 b - - 0 1", "kn6/2N5/1K6/8/8/8/8/8 b - - 0 1", "kn6/1B6/1K6/8/8/8/8/8 b - - 0 1", "8/8/8/8/8/6k1/5n2/6NK w - - 0 1",
+    "kb6/8/1K2B3/8/8/8/8/8 w - - 0 1", "kn6/8/1K6/3N4/8/8/8/8 w - - 0 1",
     "k7/pPK5/8/8/8/8/8/8 b - - 0 1",             # mated by a pawn, mating side has no officer
     "k7/p1K5/1P6/8/8/8/8/8 w - - 0 1",           # pawn mate in one
     "k7/2K5/1P6/8/8/8/8/8 w - - 0 1",            # king and pawn, promotion mate later
@@ -2318,6 +2321,27 @@ def check_C05(ctx):
             follow.append((f, kind, k, bm))
         if len(ctx.samples) < 3:
             ctx.sample({"fen": f, "spec": v, "engine": sc, "bestmove": bm})
+    # a mate in one is announced by the depth-1 iteration already (the mated position is classified at the horizon)
+    m1 = [(f, cnt) for f, v, cnt in items if v == "win 1" and cnt > 1]
+
+    def one_d1(item):
+        f, _ = item
+        s = Session()
+        try:
+            s.send(f"position {f}")
+            s.send("go depth 1")
+            got, st = wait_bestmove(s, 60.0)
+            return got, st
+        finally:
+            s.kill()
+    for (f, _), r in zip(m1, parallel_map(one_d1, m1, workers=8)):
+        ctx.case(f"mate1-d1:{f}")
+        if r is None or r[1] != "match":
+            continue
+        fin = [x for x in (parse_info(l) for l in r[0] if l.startswith("info score")) if x]
+        if fin and fin[-1]["score"] != "mate 1":
+            ctx.violation(f"mate1-depth1:{f}", {"kind": "input", "lines": [f"position {f}", "go depth 1"], "what": f"mate in one on the board but `go depth 1` reports {fin[-1]['score']}, expected mate 1", "output": r[0][-3:]})
+    ctx.bump("mate_in_one_at_depth_1", len(m1))
     # the move played keeps the distance
     if follow:
         ar = run_batch(MDRV, [f"smateafter\t{f}\t{bm}\t3" for f, kind, k, bm in follow], shards=infra.NCPU, timeout_per_op=120.0)
@@ -2328,6 +2352,12 @@ def check_C05(ctx):
                 ctx.violation(f"mate-keep:{f}", {"kind": "input", "lines": [f"position {f}", "go depth 3"], "what": f"bestmove {bm} does not keep the mate distance: after it the specification says {r}, expected {want[3:]}"})
     # terminal classification and boundedness of non-mate evaluations on a broad pool
     pool = core_positions(ctx, 1500, 60000)
+    # the thematic mates and stalemates themselves, and every position one legal move after a thematic position
+    # (a mate in one leads to a mated position): classification at the horizon is what `eval` and depth-1 searches use
+    themes = gens.legal_filter(list(dict.fromkeys(MATE_THEMES + [gens.mirror_fen(f) for f in MATE_THEMES])))
+    kids = [f2 for _, steps in gens.playouts(ctx.rng, themes, 20 * len(themes), 1) for _, f2 in steps]
+    pool = list(dict.fromkeys(pool + themes + kids))
+    ctx.bump("theme_positions_and_children", len(themes) + len(kids))
     ev = run_batch(HDRV, [f"eval\t{f}" for f in pool])
     sg = run_batch(MDRV, [f"sgen\t{f}" for f in pool])
     close = int(ctx.prep["facts"]["consts"]["ScoreCloseToMate"]["value"])
@@ -3150,7 +3180,7 @@ def check_C16(ctx):
             s0.send(f"position {f}")
             s0.send("perft 1")
             fresh_perft, _ = s0.read_until(lambda l: l.startswith("total:"), 10.0)
-            fresh_perft = [l for l in fresh_perft if not l.startswith("info")]
+            fresh_perft = [l for l in fresh_perft if re.match(r"^[a-h][1-8][a-h][1-8][nbrq]?: \d+$|^total:", l)]
             fresh, _ = probe(s0, f, d)
         finally:
             s0.kill()
@@ -3180,8 +3210,9 @@ def check_C16(ctx):
             s.drain(0.02)
             after, st = snapshot_text(s)
             # the generation ORDER must be the fresh process's too (piece lists untouched, not merely the same set)
-            if fresh_perft and after[-len(fresh_perft):] != fresh_perft:
-                after = after + ["<move order of perft 1 differs from a fresh process: " + " ".join(l.split(":")[0] for l in after[-len(fresh_perft):][:8]) + " ... vs " + " ".join(l.split(":")[0] for l in fresh_perft[:8]) + " ...>"]
+            after_perft = [l for l in after if re.match(r"^[a-h][1-8][a-h][1-8][nbrq]?: \d+$|^total:", l)]
+            if fresh_perft and after_perft != fresh_perft:
+                after = after + ["<move order of perft 1 differs from a fresh process: " + " ".join(l.split(":")[0] for l in after_perft[:8]) + " ... vs " + " ".join(l.split(":")[0] for l in fresh_perft[:8]) + " ...>"]
             probe_after, _ = probe(s, f, d, set_position=False)
             return before, after, fresh, probe_after
         finally:
@@ -3582,6 +3613,17 @@ def check_C18(ctx):
             "r1bqkbnr/pppp1ppp/2n5/4p3/3PP3/5N2/PPP2PPP/RNBQKB1R b KQkq - 0 3"]
     for f in gens.legal_filter(caps):
         items.append(("capture chain", [f"position {f}", "go depth 3"], 120.0, f, None))
+    # the longest move lists: positions with far more than a hundred (pseudo-)legal moves for the side to move - at the
+    # root, reached through a move list with promotions, and one ply below the root
+    crowded = ["R6R/3Q4/1Q4Q1/4Q3/2Q4Q/Q4Q2/pp1Q4/kBNN1KB1 w - - 0 1", "3Q4/1Q4Q1/4Q3/2Q4Q/5Q2/pp1Q4/k7/3K4 w - - 0 95",
+               "8/1P6/4Q1Q1/7Q/2Q5/Q4Q2/pp6/k4K2 w - - 0 1"]
+    for f in gens.legal_filter(crowded + [gens.mirror_fen(f) for f in crowded]):
+        items.append(("crowded perft", [f"position {f}", "perft 1"], 20.0, None, "sync"))
+        items.append(("crowded tperft", [f"position {f}", "tperft 1"], 20.0, None, "sync"))
+        items.append(("crowded search", [f"position {f}", "go depth 1"], 60.0, f, None))
+    pf = "8/1P6/4Q1Q1/7Q/2Q5/Q4Q2/pp6/k4K2 w - - 0 1"
+    items.append(("crowded after promotions", [f"position {pf} moves b7b8q b2b1n", "go depth 1"], 60.0, "1Q6/8/4Q1Q1/7Q/2Q5/Q4Q2/p7/kn3K2 w - - 0 2", None))
+    items.append(("crowded after promotions perft", [f"position {pf} moves b7b8q b2b1n", "perft 2"], 60.0, None, "sync"))
     # perft/tperft with depth around the stack size on a bare-kings position (cheap per level, deep recursion)
     for d in ([198, 199, 200, 201, 250] if not ctx.quick else [199, 200, 250]):
         items.append((f"perft {d}", ["position 7k/8/8/8/8/8/8/K7 w - - 0 1", f"perft {d}"], 4.0, None, "sync"))
@@ -3798,6 +3840,11 @@ def run(ctx):
     else:
         ctx.mdrv_broken = None
     aud = audit_proofs(ctx)
+    if not aud["ok"]:
+        # always on record, also when a correspondence then finds a concrete input (which is what gets reported)
+        first = (aud.get("detail") or "").strip().split("\n")[0][:300]
+        ctx.notes.append(f"proof obligation no longer checks: {aud.get('target')}: {aud['why']}: {first}")
+        log(f"proof obligation no longer checks: {aud.get('target')}: {aud['why']}: {first}")
     if ctx.mdrv_broken is None:
         spec["fn"](ctx)
     if ctx.mdrv_broken is not None and not ctx.violations:
